@@ -29,7 +29,8 @@ PROPS = {
         rule=("each run = one filesystem history on the real filesystem for one tailed path + one seeded schedule of the tailer's goroutines "
               "(pattern poller, stream goroutines of old and new generations, forwarders, consumer). The first 1110 seeds (11110 in the "
               "thorough tier) enumerate every action sequence of length <= 3 (<= 4) over {line, fragment, CRLF line, truncate, rename+create, "
-              "copy+truncate, delete, recreate, poll, clock jump > 24h}; later seeds sample sequences up to 12 actions. After every action the "
+              "copy+truncate, delete, recreate, poll, clock jump > 24h}; later seeds sample sequences up to 12 actions; one run in three the path also "
+              "matches a second overlapping pattern, one in six ends with a burst of several read buffers written just before tailing stops. After every action the "
               "tailer observes the state (stream tick, pattern tick, stream tick, to quiescence, until a round delivers nothing new). "
               "Non-trivial: a file generation ended with an unterminated fragment buffered, or a truncation/rotation happened; distinct = "
               "distinct (action sequence, schedule signature) pairs among those."),
@@ -38,7 +39,7 @@ PROPS = {
             "a clock jump between observations has no effect (the stale-stream timer is stopped by the empty read that follows every data read)",
             "filesystem is the sandbox's (ext4 scratch dir and /dev/shm tmpfs, chosen per run); read errors such as EIO/ESTALE are not injected",
         ],
-        expect_probes=["generation_ended_with_fragment", "fragment_then_truncate", "fragment_then_rename-rotate", "fragment_then_copy-truncate", "fragment_then_delete", "fragment_then_stop"],
+        expect_probes=["overlapping_patterns", "unread_backlog_at_stop", "generation_ended_with_fragment", "fragment_then_truncate", "fragment_then_rename-rotate", "fragment_then_copy-truncate", "fragment_then_delete", "fragment_then_stop"],
         real=["tailer.Tailer (AddPattern, pollers, TailPath, forwarders, shutdown)", "logstream.fileStream", "logstream.LineReader", "kernel filesystem (real files)", "Go time (fake clock of the bubble)"],
         stub=["waker.Waker (simulated ticks as controller actions in 4 runs of 5; mtail's real timed waker under the fake clock in the fifth)"],
     ),
@@ -203,14 +204,15 @@ PROPS = {
         thorough=dict(runs=80000),
         rule=("each run = the whole server (not one-shot) with simulated pollers: a witness program loaded for the whole run, programs errp/divp whose "
               "runtime errors are a harness-computable function of the line, 1-2 logs, and 2-9 actions from {append 1-4 lines, rotate, truncate, "
-              "delete/recreate a log; write a valid / broken / kind-conflicting version of a program, remove it, reload} each followed by an "
+              "delete/recreate a log; several connections arriving together on a tailed stream socket (one run in three has one); write a valid / broken / "
+              "kind-conflicting / self-conflicting (one name, two kinds) version of a program, remove it, reload} each followed by an "
               "observation; one append in four leaves an unterminated fragment that the end of that file generation (rotate, truncate, delete, shutdown) "
               "must deliver and count as a line of its own. After every action and after shutdown: lines_total, log_lines_total[f], prog_runtime_errors_total[p], prog_loads/unloads/load_errors_total[p] "
               "and log_count (read as deltas) must equal the harness's own event counts and the witness program's counters. Non-trivial: lines flowed "
               "and a program or log-file event happened; distinct = distinct (history, schedule signature)."),
         assumptions=["histories stay within C16's premises", "expvars are process-global: one run at a time per process, read as deltas",
                      "reloads are requested through LoadAllPrograms via a generated accessor (verif build tag) for the server's runtime"],
-        expect_probes=["fragment_flushed_as_line", "runtime_error_strtol", "runtime_error_div0", "prog_valid", "prog_broken", "prog_refused", "prog_removed", "rotate", "truncate", "delete_log"],
+        expect_probes=["socket_burst", "fragment_flushed_as_line", "runtime_error_strtol", "runtime_error_div0", "prog_valid", "prog_broken", "prog_refused", "prog_removed", "rotate", "truncate", "delete_log"],
         real=["mtail.Server (New, Run)", "tailer + file streams", "runtime + VMs", "exporter.New (no push)", "expvar counters"],
         stub=["waker.Waker (simulated ticks in 4 runs of 5; mtail's real timed waker under the fake clock in the fifth)"],
     ),
@@ -230,7 +232,7 @@ PROPS = {
         assumptions=["sockets are the in-memory stub simnet (blocking Accept/Read, past deadline fails a read even with data buffered, EOF after close and drain, Close unblocks with 'use of closed network connection')",
                      "named pipes and stdin are real kernel FIFOs; the read gate lets a read through to the kernel only when it cannot block there (bytes pending, no writer, or deadline set) and both writers open the pipe before anything is written (a writer that connects after the last one closed is a new session the reader may already have seen the end of)",
                      "datagram senders send whole newline-terminated lines; no datagram loss or reordering is injected (the statement promises delivery in write order)"],
-        expect_probes=["cancel_with_conn_open", "tail_delivered_at_close", "partial_line_flushed_at_cancel", "pipe_run"],
+        expect_probes=["cancel_with_conn_open", "tail_delivered_at_close", "partial_line_flushed_at_cancel", "pipe_run", "datagram_bulk_over_128KiB"],
         real=["logstream.socketStream (accept loop, closer, handleConn)", "logstream.dgramStream", "logstream.fifoStream on a real kernel FIFO (named pipe and stdin)", "logstream.SetReadDeadlineOnDone / IsExitableError", "logstream.LineReader", "tailer.Tailer"],
         stub=["net.Listener / net.Conn / net.PacketConn (simnet)", "waker.Waker"],
     ),
@@ -274,7 +276,7 @@ PROPS = {
         rule=("each run = one program (scalar counter, dimensioned counter with limit 4, gauge set to the line number, histogram by tag, text metric, "
               "a dimensioned counter whose label sets are deleted and expired) fed 10-49 lines by a feeder task while — drawn per run — the real GC "
               "ticker loop runs under the fake clock (the controller advances time in the middle of line processing), a reloader task performs 1-3 "
-              "reloads, and up to six exporter tasks scrape repeatedly (Prometheus gather, varz, graphite, JSON handler, push with all three "
+              "reloads, 2-3 client tasks increment the label sets of one shared metric through the metrics API, and up to six exporter tasks scrape repeatedly (Prometheus gather, varz, graphite, JSON handler, push with all three "
               "formatters, store JSON dump); three runs in four with statement-level preemption and small quanta. The binary is built with -race and "
               "the scheduler's hand-offs are hidden from the detector. Oracles: no race report in mtail code; counter totals equal the increments "
               "the lines call for; exported monotone series stay within [0, final] and never decrease between successive exports; no panic, no "
